@@ -66,6 +66,11 @@ class C10(framework.PropertyCheck):
                 tok, v = g.int_tok()
                 pos = rng.choice(['top', 'list', 'quote', 'offset', 'slice', 'slice2', 'nested'])
                 yield {'k': 'lit', 'tok': tok, 'v': v, 'pos': pos}
+            elif k == 3 and i % 16 == 3:
+                yield {'k': 'bool', 'tok': rng.choice(['#t', '#f', 'true', 'false']), 'pos': rng.choice(['top', 'list', 'quote', 'offset', 'slice', 'nested'])}
+            elif k == 3 and i % 16 == 11:
+                tok, v = g.int_tok()
+                yield {'k': 'evaltop', 'tok': rng.choice([tok, '0', '0x0', '0b000', '#f', '#t', '""', '"s"', 'false', '0.0', '1.5'])}
             elif k == 3:
                 s = rng.choice(gen_reader.STRINGS) if rng.random() < 0.5 else ''.join(rng.choice('ab "\\\\\n\t;()ntr09%\'') for _ in range(rng.randint(0, 12)))
                 yield {'k': 'str', 'chars': s}
@@ -86,6 +91,12 @@ class C10(framework.PropertyCheck):
         k = case['k']
         if k == 'fuzz':
             return [case['s']]
+        if k == 'bool':
+            t = case['tok']
+            return [{'top': t, 'list': f'(a {t} b)', 'quote': f"'{t}", 'offset': f'a@{t}', 'slice': f'a[{t}]',
+                     'nested': f"(f '(1 ({t})) `(x ,{t}))"}[case['pos']]]
+        if k == 'evaltop':
+            return [case['tok']]
         if k == 'lit':
             t = case['tok']
             return [{'top': t, 'list': f'(a {t} b)', 'quote': f"'{t}", 'offset': f'a@{t}', 'slice': f'a[{t}]', 'slice2': f'a[7:{t}]',
@@ -119,6 +130,29 @@ class C10(framework.PropertyCheck):
         for t, r in res:
             if r[0] == 'other':
                 return {'what': 'reader raised an exception other than the documented parse error', 'text': t, 'exception': r[1]}
+        if k == 'evaltop':
+            # a literal standing alone at top level evaluates to the value it denotes (also when that value is zero, empty or false)
+            from . import impl
+            t, r = res[0]
+            if r[0] == 'ok':
+                w = impl.fresh()
+                try:
+                    got = wire.canon(w.eval_str(t))
+                except BaseException as e:  # noqa: BLE001
+                    got = ('raised', type(e).__name__)
+                if got != r[1]:
+                    return {'what': 'a literal at top level does not evaluate to the value it denotes', 'text': t, 'read': r[1], 'evaluated': got}
+            return None
+        if k == 'bool':
+            t, r = res[0]
+            B = ('B', case['tok'] in ('#t', 'true'))
+            want = {'top': B, 'list': ('L', True, (('Y', 'a', None), B, ('Y', 'b', None))), 'quote': ('L', True, (('O', 'quote'), B)),
+                    'offset': ('L', True, (('O', 'reval'), ('Y', 'a', None), B)), 'slice': ('L', True, (('O', 'slice'), ('Y', 'a', None), B)),
+                    'nested': ('L', True, (('Y', 'f', None), ('L', True, (('O', 'quote'), ('L', True, (I(1), ('L', True, (B,)))))),
+                                           ('L', True, (('O', 'quasiquote'), ('L', True, (('Y', 'x', None), ('U', B)))))))}[case['pos']]
+            if r != ('ok', want):
+                return {'what': 'boolean literal does not denote its value in this position', 'text': t, 'got': r, 'want': want}
+            return None
         if k == 'lit':
             t, r = res[0]
             v = case['v']
